@@ -9,6 +9,7 @@ import Driver.RM
 import Driver.Sched
 import Driver.Exec
 import Driver.Cancel
+import Driver.Launch
 open Lean
 
 /-- line protocol: one JSON op per input line, one canonical JSON answer per line -/
@@ -33,5 +34,6 @@ def main (args : List String) : IO UInt32 := do
   | ["sched"] => loop stdin Driver.Sched.handle; return 0
   | ["exec"] => loop stdin Driver.Exec.handle; return 0
   | ["cancel"] => loop stdin Driver.Cancel.handle; return 0
+  | ["launch"] => loop stdin Driver.Launch.handle; return 0
   | ["cause"] => loop stdin Driver.AgentCause.handle; return 0
   | _ => IO.eprintln "usage: rpmodel <suite>"; return 2
